@@ -11,6 +11,7 @@ use crate::algebra::*;
 pub use crate::solver::core::cones::*;
 pub use crate::solver::core::{ScalingStrategy, StepDirection};
 pub use crate::algebra::{MatrixShape, MatrixTriangle};
+pub use crate::solver::core::kktsolvers::{direct::DirectLDLKKTSolver, KKTSolver};
 
 /// y = a*A*x + b*y
 pub fn gemv_n(A: &CscMatrix<f64>, y: &mut [f64], x: &[f64], a: f64, b: f64) {
